@@ -713,6 +713,42 @@ def _plus_const(e: ast.expr) -> Tuple[ast.expr, int]:
     return e, 0
 
 
+def _plus_offset(e: ast.expr) -> Optional[Tuple[ast.expr, int, Tuple[Tuple[str, int], ...]]]:
+    """e as  <one subscript> + integer + signed names  ->  (subscript, integer, ((name, coefficient), ...)); None when e has another shape."""
+    base: List[ast.expr] = []
+    k = [0]
+    sym: Dict[str, int] = {}
+
+    def go(x: ast.expr, sg: int) -> bool:
+        if isinstance(x, ast.BinOp) and isinstance(x.op, ast.Add):
+            return go(x.left, sg) and go(x.right, sg)
+        if isinstance(x, ast.BinOp) and isinstance(x.op, ast.Sub):
+            return go(x.left, sg) and go(x.right, -sg)
+        if isinstance(x, ast.UnaryOp) and isinstance(x.op, ast.USub):
+            return go(x.operand, -sg)
+        if isinstance(x, ast.Constant) and isinstance(x.value, int) and not isinstance(x.value, bool):
+            k[0] += sg * x.value
+            return True
+        if isinstance(x, ast.Name):
+            sym[x.id] = sym.get(x.id, 0) + sg
+            return True
+        if isinstance(x, ast.Subscript) and sg == 1 and not base:
+            base.append(x)
+            return True
+        return False
+
+    if not go(e, 1) or len(base) != 1:
+        return None
+    return base[0], k[0], tuple(sorted((n, c) for n, c in sym.items() if c))
+
+
+def _show_off(k: int, sym: Tuple[Tuple[str, int], ...]) -> str:
+    parts = [str(k)] if (k or not sym) else []
+    for n, c in sym:
+        parts.append(("" if c == 1 else "-" if c == -1 else f"{c}*") + n)
+    return " + ".join(parts).replace("+ -", "- ")
+
+
 def rule_enforce_entail(ctx: Ctx, prog: Program) -> None:
     """A block that enforces  a + k <= b  on two variables (a.MAX = min(a.MAX, b.MAX - k); b.MIN = max(b.MIN, a.MIN + k)) and then answers
     'entailed' on a comparison of a.MAX with b.MIN states two beliefs about the same relation; they must agree: the relation holds on the
@@ -740,8 +776,8 @@ def rule_enforce_entail(ctx: Ctx, prog: Program) -> None:
                 if isinstance(b, list) and b and isinstance(b[0], ast.stmt):
                     blocks.append(b)
         for block in blocks:
-            enforced: Dict[Tuple[str, str], int] = {}  # (a row, b row) -> k  from  a.MAX = min(a.MAX, b.MAX - k)
-            enforced2: Dict[Tuple[str, str], int] = {}  # from b.MIN = max(b.MIN, a.MIN + k)
+            enforced: Dict[Tuple[str, str], Any] = {}  # (a row, b row) -> (k, symbolic part, line)  from  a.MAX = min(a.MAX, b.MAX - k)
+            enforced2: Dict[Tuple[str, str], Any] = {}  # from b.MIN = max(b.MIN, a.MIN + k)
             for s in block:
                 if isinstance(s, ast.Assign) and len(s.targets) == 1 and isinstance(s.value, ast.Call) and isinstance(s.value.func, ast.Name) \
                         and s.value.func.id in ("min", "max") and len(s.value.args) == 2:
@@ -752,14 +788,28 @@ def rule_enforce_entail(ctx: Ctx, prog: Program) -> None:
                     other = [a for a in args if ast.unparse(a) != ast.unparse(s.targets[0])]
                     if len(other) != 1:
                         continue
-                    base, k = _plus_const(other[0])
+                    po = _plus_offset(other[0])
+                    if po is None:
+                        continue
+                    base, k, sym = po
                     ob = _bound_ref(prog, fn, base)
                     if ob is None:
                         continue
                     if s.value.func.id == "min" and tgt[1] == "MAX" and ob[1] == "MAX":
-                        enforced[(tgt[0], ob[0])] = -k  # a.MAX <= b.MAX - k'
+                        enforced[(tgt[0], ob[0])] = (-k, tuple((n_, -c_) for n_, c_ in sym), s.lineno)  # a.MAX <= b.MAX - k'
                     if s.value.func.id == "max" and tgt[1] == "MIN" and ob[1] == "MIN":
-                        enforced2[(ob[0], tgt[0])] = k  # b.MIN >= a.MIN + k
+                        enforced2[(ob[0], tgt[0])] = (k, sym, s.lineno)  # b.MIN >= a.MIN + k
+                    for pair in set(enforced) & set(enforced2):
+                        e1, e2 = enforced[pair], enforced2[pair]
+                        if s.lineno != max(e1[2], e2[2]):
+                            continue
+                        if (e1[0], e1[1]) == (e2[0], e2[1]):
+                            ctx.ok("R-ENFORCE-ENTAIL", f"{fn.name}: both halves enforce {pair[0]} + {_show_off(e1[0], e1[1])} <= {pair[1]}", sample={"line": s.lineno})
+                        else:
+                            ctx.violation("R-ENFORCE-ENTAIL", fn.path, fn.name, f"enforce-halves-disagree:{pair[0]}:{pair[1]}", f"{fn.path}:{s.lineno}",
+                                          f"{fn.name}: this block lowers {pair[0]}.max to {pair[1]}.max - ({_show_off(e1[0], e1[1])}) but raises {pair[1]}.min only to "
+                                          f"{pair[0]}.min + ({_show_off(e2[0], e2[1])}): the two stores are the two halves of one ordering a + k <= b and must "
+                                          "use the same k; the weaker half leaves a bound without support in a pass that reports 'consistent'")
                 tests: List[Tuple[ast.expr, int]] = []
                 if isinstance(s, ast.Return) and isinstance(s.value, ast.IfExp) and isinstance(s.value.body, ast.Name) and s.value.body.id == PE:
                     tests.append((s.value.test, s.lineno))
@@ -773,23 +823,43 @@ def rule_enforce_entail(ctx: Ctx, prog: Program) -> None:
                 for t, line in tests:
                     if not (isinstance(t, ast.Compare) and len(t.ops) == 1):
                         continue
-                    l, r_ = _bound_ref(prog, fn, t.left), _bound_ref(prog, fn, t.comparators[0])
+                    pl, pr = _plus_offset(t.left), _plus_offset(t.comparators[0])
+                    if pl is None or pr is None:
+                        continue
+                    l, r_ = _bound_ref(prog, fn, pl[0]), _bound_ref(prog, fn, pr[0])
                     if l is None or r_ is None:
                         continue
                     op = type(t.ops[0])
+                    # offsets of the test:  (left cell + dl) op (right cell + dr)
+                    dk = pl[1] - pr[1]
+                    dsym_d: Dict[str, int] = {}
+                    for n_, c_ in pl[2]:
+                        dsym_d[n_] = dsym_d.get(n_, 0) + c_
+                    for n_, c_ in pr[2]:
+                        dsym_d[n_] = dsym_d.get(n_, 0) - c_
+                    dsym = tuple(sorted((n_, c_) for n_, c_ in dsym_d.items() if c_))
                     # normalise to  a.MAX (op) b.MIN
                     if l[1] == "MAX" and r_[1] == "MIN" and op in (ast.Lt, ast.LtE):
-                        a, b, strict = l[0], r_[0], op is ast.Lt
+                        a, b, strict = l[0], r_[0], op is ast.Lt  # a.MAX + d (op) b.MIN
+                        gk, gsym = dk, dsym
                     elif l[1] == "MIN" and r_[1] == "MAX" and op in (ast.Gt, ast.GtE):
-                        a, b, strict = r_[0], l[0], op is ast.Gt
+                        a, b, strict = r_[0], l[0], op is ast.Gt  # b.MIN + d (op) a.MAX, i.e. a.MAX - d (op') b.MIN
+                        gk, gsym = -dk, tuple((n_, -c_) for n_, c_ in dsym)
                     else:
                         continue
-                    ks = [d[(a, b)] for d in (enforced, enforced2) if (a, b) in d]
-                    if not ks:
+                    es = [d[(a, b)] for d in (enforced, enforced2) if (a, b) in d]
+                    if not es:
                         continue
                     n += 1
-                    k = max(ks)
-                    guaranteed = 1 if strict else 0  # the test establishes a.MAX + guaranteed <= b.MIN
+                    guaranteed = gk + (1 if strict else 0)  # the test establishes a.MAX + guaranteed (+ gsym) <= b.MIN
+                    syms = {e_[1] for e_ in es}
+                    if len(syms) != 1 or next(iter(syms)) != gsym:
+                        if len(syms) == 1:
+                            ctx.violation("R-ENFORCE-ENTAIL", fn.path, fn.name, f"entail-weaker-than-enforced:{a}:{b}", f"{fn.path}:{line}",
+                                          f"{fn.name} enforces {a} + ({_show_off(es[0][0], es[0][1])}) <= {b} in this block but answers 'entailed' under {ast.unparse(t)}, "
+                                          f"which establishes {a}.max + ({_show_off(guaranteed, gsym)}) <= {b}.min: the two offsets differ by a quantity that is not a constant")
+                        continue  # the halves disagree (reported above)
+                    k = max(e_[0] for e_ in es)
                     if guaranteed >= k:
                         ctx.ok("R-ENFORCE-ENTAIL", f"{fn.name}: enforces {a} + {k} <= {b}, entailed under {ast.unparse(t)}", sample={"line": line, "k": k})
                     else:
